@@ -103,7 +103,7 @@ def run_family(rep, wd, plan, prop, seed, count_props, shards=8, extra_scen=()):
         x["id"] = len(scen)
         scen.append(x)
     # (a thorough run is a few thousand real sessions, CMP among them: the budget follows the amount of work)
-    outcomes, problems, stats = hc.run_adversarial(wd, scen, "adv", seed, shards=shards, timeout=3000 if len(scen) < 6000 else 5400)
+    outcomes, problems, stats = hc.run_adversarial(wd, scen, "adv", seed, shards=shards, timeout=3000 if len(scen) < 6000 else 9000)
     states += stats["distinct"]; trans += stats["generated"]
     by_id = {s["id"]: s for s in scen}
     applicable = reached = 0
